@@ -212,7 +212,15 @@ def run(ctx):
               expr="isDefined walk", site="Environment.isDefined: walks the chain")
 
     # ---------------------------------------------------------------- pipeline
-    inv = model.func(P, "parser", "_invoke")
+    # the pipeline parser: the parser function that consumes '!>' and adds its node parameter to a call it builds
+    cands = [f_ for f_ in model.module(P, "parser").funcs.values() if len(f_.params) == 2 and any(
+        isinstance(c_, ast.Call) and norm(c_.func) == "lexer.matchIf" and c_.args and norm(c_.args[0]) == "'!>'"
+        for c_ in ast.walk(f_.node)) and any(
+        isinstance(c_, ast.Call) and isinstance(c_.func, ast.Attribute) and c_.func.attr == "addArg" and len(c_.args) == 2
+        and norm(c_.args[1]) == f_.params[1] for c_ in ast.walk(f_.node))]
+    if len(cands) != 1:
+        ctx.broken("parser.py", f"pipeline parser ('!>' ... addArg(None, <node>)) not found ({len(cands)} candidates)")
+    inv = cands[0]
     piped = inv.params[1]
     g = CFG(inv.node, implicit_exc=False)
 
@@ -327,7 +335,28 @@ def run(ctx):
               expr="setArgs stores", site="Args.setArgs: args[name] = values[i]")
     iv = model.func(P, "nodes", "invoke")
     t = norm(iv.node)
-    ok = "values.append(arg.evaluate(environment))" in t and "names.append(names_[i])" in t
+    # the evaluated argument object itself is what is appended: <values>.append(<loop element>.evaluate(<env>)), the
+    # loop element being the for-target over the argument nodes (or args[i])
+    argp, envp = iv.params[2], iv.params[3]
+    elems = set()
+    for n_ in ast.walk(iv.node):
+        if isinstance(n_, ast.For):
+            it_ = norm(n_.iter)
+            if it_ == argp and isinstance(n_.target, ast.Name):
+                elems.add(n_.target.id)
+            elif it_ == f"enumerate({argp})" and isinstance(n_.target, ast.Tuple) and len(n_.target.elts) == 2:
+                elems.add(norm(n_.target.elts[1]))
+                elems.add(f"{argp}[{norm(n_.target.elts[0])}]")
+            elif it_ == f"range(len({argp}))" and isinstance(n_.target, ast.Name):
+                elems.add(f"{argp}[{n_.target.id}]")
+                for a_ in ast.walk(n_):
+                    if isinstance(a_, ast.Assign) and norm(a_.value) == f"{argp}[{n_.target.id}]" \
+                            and isinstance(a_.targets[0], ast.Name):
+                        elems.add(a_.targets[0].id)
+    ok = any(isinstance(c_, ast.Call) and isinstance(c_.func, ast.Attribute) and c_.func.attr == "append"
+             and len(c_.args) == 1 and isinstance(c_.args[0], ast.Call) and isinstance(c_.args[0].func, ast.Attribute)
+             and c_.args[0].func.attr == "evaluate" and norm(c_.args[0].func.value) in elems
+             and [norm(x) for x in c_.args[0].args] == [envp] for c_ in ast.walk(iv.node))
     ctx.check("C03.byref", iv, None, ok, "invoke does not pass the evaluated argument objects", expr="invoke values",
               site="invoke: values.append(arg.evaluate(env))")
 
